@@ -13,6 +13,7 @@ HDR = base.witness.HDR
 ASSUMPTIONS = [
     "closed obligations per program and option vector: the labelled output loads (every referenced label defined exactly once), every numeric target of the de-labelled output lies in [0, n], and the label-free canonical forms of both outputs are identical (label -> index of the next instruction)",
     "where the canonical forms differ the two outputs are additionally compared on the symbolic IC10 machine (z3, all inputs) to show the behavioural difference",
+    "the construct a jump was generated for: programs whose effects depend on which loop / branch a jump lands in (break / continue in nested loops of every mix, early returns) are compared with their source on the symbolic machine with labels kept and removed (same input model as C01)",
     "identifier quantifier: an adversarial pool of function / module names (prefixes of one another, components after '_' splitting, digits, names close to generated labels) instantiated in fixed templates; names that the compiler rejects are skipped",
     "E3: the real remove_labels + strip_code run on a 10-line labelled template whose two label names are strings of 1..3 (thorough 4) symbolic characters over {a, b, '.', '1'}; every feasible path is explored, the result is compared with the token-wise expected text, mismatches are replayed on the real function; name pairs where one is a component sequence of the other are the recorded finding",
 ]
@@ -288,6 +289,20 @@ def run(tier: str) -> int:
                 continue
             path = e1.save_replay(PROP, dict(property=PROP, kind="labels", name=spec["name"], sources=spec["sources"], opts=spec["opts"], problem=pr))
             rep.violation(f"{spec['name']} {spec['opts']}: {pr['kind']}: {str(pr['detail'])[:200]}", path)
+    # ---- targets: the location a jump resolves to is the one its construct meant.  Programs whose
+    # behaviour depends on which loop / branch a jump lands in are compared with their source on the
+    # symbolic machine, with labels kept and removed.
+    titems = []
+    for k, v in probes.loop_nest_probes() + [x for x in probes.call_probes() if "return" in x[0]] + [x for x in probes.access_probes() if x[0] in ("acc:while_true",)]:
+        for vn, vec in (("labels", {}), ("nolabels", {"remove_labels": True})):
+            titems.append(("src_vs_ic10", dict(name=f"target:{k}@{vn}", sources=v, opts=vec, tier=tier, timeout=60)))
+    tres = harness.pmap(e1.run_task, titems)
+    for (_, spec), r in zip(titems, tres):
+        if r["status"] == "harness_error":
+            rep.harness_errors.append(f"{spec['name']}: {r.get('detail')}")
+        if r["status"] == "divergence":
+            path = e1.save_replay(PROP, dict(property=PROP, kind="src_vs_ic10", name=spec["name"], sources=spec["sources"], opts=spec["opts"], result=r))
+            rep.violation(f"{spec['name']}: a jump lands somewhere else than its construct meant: {r['divergences'][0]['detail']}", path)
     # ---- E3: identifier dimension, solver-quantified within the length bound
     shapes = [(1, 1), (1, 2), (2, 1), (2, 2), (1, 3), (3, 1), (2, 3), (3, 2)] + ([(3, 3), (1, 4), (4, 1), (2, 4), (4, 2)] if tier == "thorough" else [])
     e3res = harness.pmap(e3_task, shapes, placeholder=lambda it, st, d: dict(shape=it, paths=0, problems=[], status="inconclusive", detail=f"{st}: {d}", queries=0))
@@ -315,6 +330,8 @@ def run(tier: str) -> int:
                 template="10-line labelled program with two label names", alphabet=[chr(a) for a in E3_ALPHA], shapes=shapes, paths=e3paths,
                 queries=sum(r.get("queries", 0) for r in e3res), truncated=[r["shape"] for r in e3res if r.get("truncated")],
                 assumption="label names: first character a letter, last character not '.', the two names different"),
+        targets=dict(programs=len(tres), by_status=base.count_by(tres), paths=sum(r.get("paths") or 0 for r in tres), effects_compared=sum(r.get("effects_compared") or 0 for r in tres),
+                     rule="break / continue in every mix of nested for-range / while loops, early returns, while True with continue and break: source vs emitted code, labels kept and removed"),
         evaluations=len(results),
         distinct_nontrivial=nontrivial,
         rule="programs (seeded generator, call-heavy generator, fixed call graphs, repository sources, name-pool template instances) x option vectors; each compiled with labels kept and removed; non-trivial = both outputs load and contain at least one jump target",
